@@ -1,6 +1,9 @@
 SPECIFICATION Spec
 CONSTANTS KnownDevs = {"F-QER-RELABEL"}
 INVARIANTS
+  InEnvelope
+  EnvDistinctMatchKeys
+  Up4Envelope
   C02_ExactlyOneResponse
   C02_ResponseTypeMatches
   C02_SequenceNumberEchoed
@@ -21,9 +24,6 @@ INVARIANTS
   C15_NotFreeWhileInUse
   C15_NoIdTwiceInPool
   C15_PeerIdsInUseStayAllocated
-  InEnvelope
-  EnvDistinctMatchKeys
-  Up4Envelope
 POSTCONDITION TraceAccepted
 ALIAS Alias
 CHECK_DEADLOCK FALSE
